@@ -541,6 +541,56 @@ def check_extra(sub, st, hashes):
             sub.violation('form %s: %s' % (name, kinds), dict(query=q.to_json(), frontend=fe, position='form', source=q.source(fe), mismatch=repr(mm[0])),
                           '%s -> %r' % (q.source(fe), mm[0]))
 
+# ---- composite (tuple) comparisons ---------------------------------------------------------------------------
+# (x.a, x.b) OP (k1, k2), 3-tuples, attribute tuples on both sides and tuples of external variables, for all six
+# operators over the full grid {0,1,2}^3 of rows: the reference is Python's own tuple comparison. SQLite has no row
+# values in Pony's dialect description, so every ordering comparison is expanded into OR/AND clauses by CmpMonad.
+def check_tuple_comparisons(sub):
+    import itertools, operator
+    from pony import orm
+    db = orm.Database()
+    class T(db.Entity):
+        id = orm.PrimaryKey(int)
+        a = orm.Required(int); b = orm.Required(int); c = orm.Required(int)
+    db.bind('sqlite', ':memory:'); db.generate_mapping(create_tables=True)
+    rows = list(itertools.product((0, 1, 2), repeat=3))
+    with orm.db_session:
+        for i, (a, b, c) in enumerate(rows, 1): T(id=i, a=a, b=b, c=c)
+    OPS = {'<': operator.lt, '<=': operator.le, '>': operator.gt, '>=': operator.ge, '==': operator.eq, '!=': operator.ne}
+    cols = {'a': 0, 'b': 1, 'c': 2}
+    sides = []                                   # (text, evaluator(row, consts))
+    for n in (2, 3):
+        for names in itertools.permutations('abc', n):
+            sides.append(('(%s)' % ', '.join('x.' + m for m in names), lambda r, k, names=names: tuple(r[cols[m]] for m in names), n, 'attrs'))
+    forms = []
+    for ltext, lev, n, _ in sides:
+        for consts in itertools.product((0, 1, 2), repeat=n):
+            if n == 3 and consts[0] != 1: continue                      # the first element decides outside 1: one value is enough
+            forms.append((ltext, lev, '(%s)' % ', '.join(map(str, consts)), lambda r, k, consts=consts: consts, None, 'const'))
+            forms.append((ltext, lev, '(%s)' % ', '.join('k%d' % i for i in range(n)), lambda r, k, consts=consts: consts, consts, 'param'))
+        for rtext, rev, n2, _ in sides:
+            if n2 == n and rtext != ltext: forms.append((ltext, lev, rtext, rev, None, 'attrs'))
+    with orm.db_session:
+        for ltext, lev, rtext, rev, params, kind in forms:
+            for op, f in OPS.items():
+                for left_first in ((True, False) if kind != 'attrs' else (True,)):
+                    text = 'x.id for x in T if %s %s %s' % ((ltext, op, rtext) if left_first else (rtext, op, ltext))
+                    g = {'T': T}
+                    if params is not None: g.update(('k%d' % i, v) for i, v in enumerate(params))
+                    sub.count('queries'); sub.count('tuple_comparison_queries')
+                    try: got = sorted(orm.select(text, g, {}))
+                    except Exception as e:
+                        sub.count('refused'); sub.count('tuple_comparisons_refused'); continue
+                    sub.count('answered')
+                    exp = sorted(i for i, r in enumerate(rows, 1) if (f(lev(r, params), rev(r, params)) if left_first else f(rev(r, params), lev(r, params))))
+                    sub.count('row_comparisons', len(rows))
+                    if got == exp: sub.count('agreed'); continue
+                    sub.count('disagreed')
+                    sub.violation('tuple comparison %s of %d elements (%s): wrong rows' % (op, len(lev(rows[0], params)), kind),
+                                  dict(tuple_comparison=text, params=params),
+                                  'select(%s)%s: %d rows expected, got %d; first difference %r' % (text, '' if params is None else ' with %r' % (params,), len(exp), len(got), sorted(set(exp) ^ set(got))[:3]))
+    db.disconnect()
+
 def run(ctx):
     t0 = time.time()
     _EXPRS[1] = qx.enumerate_exprs(P, 1)
@@ -568,6 +618,7 @@ def run(ctx):
         core.absorb(ctx, d)
     sub = core.Sub()
     check_extra(sub, state(), hashes)
+    check_tuple_comparisons(sub)
     core.absorb(ctx, sub.dump())
     c = ctx.counters
     queries, answered, refused = c.get('queries', 0), c.get('answered', 0), c.get('refused', 0)
@@ -579,6 +630,7 @@ def run(ctx):
     ctx.cov['productions_never_answered'] = never
     ctx.guard('grammar productions answered at least once (of %d)' % len(prods), len(prods) - len(never), len(prods))
     ctx.guard('row comparisons', c.get('row_comparisons', 0), 100000)
+    ctx.guard('tuple comparison queries answered', c.get('tuple_comparison_queries', 0) - c.get('tuple_comparisons_refused', 0), 1000)
     ctx.guard('plain / JOIN-hinted pairs both answered and compared with each other', c.get('hint_differentials', 0), 200)
     for k in [k for k in list(c) if k.startswith(('ok:', 'refusals:', 'unplaced:'))]: del c[k]
     ctx.assume('SQLite 3.40 in-memory database is the executing engine; data reach it through Pony itself (C06/C07 cover storage)')
@@ -591,6 +643,11 @@ def run(ctx):
                      'result is decided and non-empty' % ('' if ctx.quick else '; depth 2 pruned operand lists'))
 
 def replay(ctx, case):
+    if 'tuple_comparison' in case:
+        sub = core.Sub(); check_tuple_comparisons(sub)
+        bad = [e for e in sub.found.values() if e['case'].get('tuple_comparison') == case['tuple_comparison']]
+        for e in bad: print(e['message'])
+        return not bad
     q = Query.from_json(case['query'])
     st = state_slots() if q.dataset == 'slots' else state()
     if case.get('position') == 'hint-differential':
